@@ -30,6 +30,8 @@ def import_eql():
     want = os.path.join(os.path.abspath(EQL_SRC), "entity_query_language")
     if os.path.realpath(got) != os.path.realpath(want):
         raise HarnessError(f"imported entity_query_language from {got}, expected {want}")
+    import logging
+    entity_query_language.logger.setLevel(logging.CRITICAL)   # keep the library's advisory warnings out of the check output
     _imported = True
 
 
